@@ -42,6 +42,8 @@ type Path struct {
 	ghostGen int
 	now     string // allocation clock: every reference obtained so far was born before `now`
 	cells   map[types.Object]string // locals whose address was taken: they live in a heap cell from then on
+	private map[string]bool // objects allocated by the unit whose reference has not left its locals yet (escape.go)
+	noPrivate bool          // a function literal was created: captured locals may leak any later reference
 }
 
 func NewPath() *Path {
@@ -69,6 +71,13 @@ func (p *Path) Clone() *Path {
 	q.pc = append([]string(nil), p.pc...)
 	q.events = append([]Event(nil), p.events...)
 	q.allocs = append([]string(nil), p.allocs...)
+	q.noPrivate = p.noPrivate
+	if len(p.private) > 0 {
+		q.private = make(map[string]bool, len(p.private))
+		for k := range p.private {
+			q.private[k] = true
+		}
+	}
 	return q
 }
 
@@ -160,6 +169,7 @@ type Exec struct {
 	frame             *frameInfo // what the contract under verification allows the body to change (nil: no frame checking)
 	lastFieldWhole    map[string]bool // heap fields assigned as a whole (not only element-wise) in the last scanned loop body
 	lastWholeAssigned map[types.Object]bool // variables assigned as a whole (not only element-wise) in the last scanned loop body
+	localOrd          map[types.Object]int // declaration ordinal of every local of the unit (locals.go)
 	loopOrdinals      map[ast.Node]int // static (source-order) ordinal of every loop of the unit under verification
 }
 
@@ -270,6 +280,7 @@ func (ex *Exec) heapRead(p *Path, key string, ft types.Type, ref string) Value {
 
 func (ex *Exec) heapWrite(p *Path, key string, ft types.Type, ref string, val string) {
 	fs := ex.c.SortOf(ft)
+	ex.escapeIn(p, val)
 	t := "(store " + ex.heapArr(p, key, fs) + " " + ref + " " + val + ")"
 	if len(t) > 600 && ex.quantFacts == nil && !boundVarRe.MatchString(t) {
 		// name the new heap: later reads would otherwise copy the whole store chain at every use
@@ -357,6 +368,12 @@ func (ex *Exec) alloc(p *Path, hint string) string {
 		p.Assume("(not (= " + r + " " + a + "))")
 	}
 	p.allocs = append(p.allocs, r)
+	if !p.noPrivate && !ex.inContract() {
+		if p.private == nil {
+			p.private = map[string]bool{}
+		}
+		p.private[r] = true
+	}
 	p.Assume("(= (" + ex.birthFun() + " " + r + ") " + p.now + ")")
 	p.now = "(+ " + p.now + " 1)"
 	return r
@@ -514,6 +531,16 @@ func (ex *Exec) tryMerge(a, b *Path) *Path {
 	}
 	if a.now != b.now {
 		m.now = ite(ca, a.now, b.now)
+	}
+	m.noPrivate = a.noPrivate || b.noPrivate
+	m.private = nil
+	for r := range a.private {
+		if b.private[r] {
+			if m.private == nil {
+				m.private = map[string]bool{}
+			}
+			m.private[r] = true
+		}
 	}
 	// allocs: union
 	seen := map[string]bool{}
